@@ -304,6 +304,7 @@ class Ctx:
             self.axioms_used.update(axs)
             self.obligations.append((t, True, "axioms: " + ",".join(axs)))
         self.checker_cmds.append("coqc Print Assumptions for %s" % module)
+        self.log("proved %s: %d theorem(s) checked, Print Assumptions read" % (module, len(theorems)))
         if self.tier == "thorough" and os.environ.get("VERIF_NO_COQCHK") != "1":
             self.coqchk(group, module)
         return failed
@@ -360,6 +361,7 @@ class Ctx:
         if rc != 0:
             # The repository (or the hook) does not compile: not a property verdict.
             raise CheckerBroken("harness %s failed to build against %s:\n%s" % (group, REPO, out[-3000:]))
+        self.log("harness %s (%s) built against %s" % (group, profile, REPO))
         return os.path.join(tdir, "release" if profile == "release" else "debug")
 
     def run_bin(self, path, args=(), stdin=None, timeout=600, env=None):
@@ -392,6 +394,7 @@ class Ctx:
             if len(parts) != 3:
                 raise CheckerBroken("%s exec printed a malformed line: %r" % (binname, l[:200]))
             cases.append({"tag": parts[0], "input": parts[1], "term": parts[2]})
+        self.log("%s: implementation ran on %d inputs" % (binname, len(cases)))
         if len(cases) != len(inputs):
             raise CheckerBroken("%s exec answered %d of %d inputs (crash?): %s" % (binname, len(cases), len(inputs), out[-300:]))
         return cases
